@@ -2,7 +2,7 @@ SPECIFICATION Spec
 CONSTANTS
   Versions <- VersionsAll
   Family = "ops"
-  ShapeIds <- ShapesAll
+  ShapeIds <- ShapesC03
   VariantIds <- Variants2
   MaxOps = 2
   Alphabet <- AlphabetQuick
